@@ -37,6 +37,14 @@ func Scal(v *big.Int) *secp256k1.Scalar {
 	return s
 }
 
+// NilElem and NilScal are the nil argument as callers usually hold it: a nil pointer in a typed variable (a missing map
+// entry, an unset struct field, a failed lookup's result), not the untyped literal. The two are the same thing to the
+// unchanged API and must be treated alike.
+var (
+	NilElem *secp256k1.Element
+	NilScal *secp256k1.Scalar
+)
+
 // ScalVal reads a scalar's value at the API boundary.
 func ScalVal(s *secp256k1.Scalar) *big.Int { return new(big.Int).SetBytes(s.Encode()) }
 
